@@ -345,11 +345,12 @@ impl<'repo> Stack<'repo> {
 
     /// Start a transaction to modify the stack.
     pub(crate) fn setup_transaction(self) -> TransactionBuilder<'repo> {
-        assert!(
-            self.is_initialized,
-            "Attempt transaction with uninitialized stack state"
-        );
         TransactionBuilder::new(self)
+    }
+
+    /// Whether the stack has stack state metadata in the repository.
+    pub(super) fn is_initialized(&self) -> bool {
+        self.is_initialized
     }
 
     /// Clear the stack state history.
